@@ -134,6 +134,85 @@ fn val_u128(v: Vals, i: usize, bits: u32) -> u128 {
     }
 }
 
+/// A key source over key(0..n) that counts how many times it has been rewound.
+struct CountingKeys {
+    n: usize,
+    pos: usize,
+    cur: usize,
+    rewinds: std::sync::Arc<std::sync::atomic::AtomicUsize>,
+}
+impl<'lend> lender::Lending<'lend> for CountingKeys {
+    type Lend = Result<&'lend usize, std::convert::Infallible>;
+}
+impl lender::Lender for CountingKeys {
+    fn next(&mut self) -> Option<lender::Lend<'_, Self>> {
+        if self.pos >= self.n {
+            return None;
+        }
+        self.cur = key(self.pos);
+        self.pos += 1;
+        Some(Ok(&self.cur))
+    }
+}
+impl sux::utils::RewindableIoLender<usize> for CountingKeys {
+    type Error = std::convert::Infallible;
+    fn rewind(mut self) -> Result<Self, Self::Error> {
+        self.rewinds.fetch_add(1, std::sync::atomic::Ordering::SeqCst);
+        self.pos = 0;
+        Ok(self)
+    }
+}
+
+/// Seed sweep in the sharded linear regime: some seeds make the largest shard exceed the 1% slack, so the
+/// first attempt is rejected before solving (MaxShardTooBig) and the sources are rewound without any
+/// solver run; the number of such attempts is reported (passes over the keys minus par_solve runs).
+fn seed_sweep(r: &mut Runner, filter: bool, t: bool) {
+    let sizes: &[usize] = if t { &[400_928, 799_999] } else { &[400_928] };
+    let nseeds = if t { 64 } else { 24 };
+    for &n in sizes {
+        for seed in 0..nseeds {
+            let hint = if seed % 2 == 0 { Hint::Absent } else { Hint::Exact };
+            let cfg = Cfg { seed, hint, ..Cfg::default() };
+            let what = if filter { "try_build_filter<Box<[u8]>>" } else { "try_build_func<BitFieldVec<usize>>" };
+            if !r.ctx.case(|| format!("VBuilder::{what} seed sweep n={n} cfg={}", cfg.describe())) {
+                continue;
+            }
+            r.ctx.nontrivial();
+            let rewinds = std::sync::Arc::new(std::sync::atomic::AtomicUsize::new(0));
+            let keys = CountingKeys { n, pos: 0, cur: 0, rewinds: rewinds.clone() };
+            EVENTS.lock().unwrap().clear();
+            let res = guard(|| -> Result<(usize, usize), String> {
+                if filter {
+                    let b = configure!(VBuilder::<u8, Box<[u8]>>::default(), &cfg, n);
+                    let f = b.try_build_filter(keys, no_logging![]).map_err(|e| format!("{e:#}"))?;
+                    Ok((f.len(), (0..n).filter(|&i| !f.contains(key(i))).count()))
+                } else {
+                    let b = configure!(VBuilder::<usize, BitFieldVec<usize>>::default(), &cfg, n);
+                    let f = b.try_build_func(keys, FromIntoIterator::from((0..n).map(|i| i % 1000)), no_logging![]).map_err(|e| format!("{e:#}"))?;
+                    Ok((f.len(), (0..n).filter(|&i| f.get(key(i)) != i % 1000).count()))
+                }
+            });
+            let starts = EVENTS.lock().unwrap().iter().filter(|e| e.0 == "ps.start").count();
+            let passes = rewinds.load(std::sync::atomic::Ordering::SeqCst) + 1;
+            r.ctx.add("sweep_attempts_rejected_before_solving", passes.saturating_sub(starts) as u64);
+            r.after_build(&format!("seed sweep n={n} seed={seed}"));
+            let p = if filter { "C08" } else { "C07" };
+            match res {
+                Outcome::Panic(m) => r.ctx.violation(&format!("{p}|VBuilder::{what}|panic"), format!("n={n} cfg={}: {m}", cfg.describe())),
+                Outcome::Ret(Err(e)) => r.ctx.violation(&format!("{p}|VBuilder::{what}|error"), format!("n={n} cfg={}: {e}", cfg.describe())),
+                Outcome::Ret(Ok((len, wrong))) => {
+                    if len != n || wrong > 0 {
+                        r.ctx.violation(
+                            &format!("{p}|VBuilder::{what}|wrong-after-retry"),
+                            format!("n={n} cfg={} ({passes} passes over the keys, {starts} solver runs): len() = {len}, {wrong} keys wrong / not contained", cfg.describe()),
+                        );
+                    }
+                }
+            }
+        }
+    }
+}
+
 /// Event log of the par_solve hooks (one build at a time per process).
 static EVENTS: std::sync::Mutex<Vec<(&'static str, usize, usize)>> = std::sync::Mutex::new(Vec::new());
 fn on_event(site: &'static str, a: usize, b: usize) {
@@ -148,10 +227,10 @@ struct Runner<'a> {
 
 impl Runner<'_> {
     fn after_build(&mut self, what: &str) {
+        let ev = std::mem::take(&mut *EVENTS.lock().unwrap());
         if !self.traces {
             return;
         }
-        let ev = std::mem::take(&mut *EVENTS.lock().unwrap());
         for tr in proto::split_traces(&ev) {
             self.ctx.count("traces_validated");
             self.ctx.add("trace_events", tr.len() as u64);
@@ -530,9 +609,7 @@ fn main() {
     start_watchdog(120);
     let prop = ctx.opt("prop").unwrap_or("C07").to_string();
     let traces = ctx.opt("traces").is_some();
-    if traces {
-        sux::verif_hooks::set_event_hook(Some(on_event));
-    }
+    sux::verif_hooks::set_event_hook(Some(on_event));
     if let Some(spec) = ctx.opt("hangprobe") {
         let spec = spec.to_string();
         hang_probe_child(&spec);
@@ -543,8 +620,10 @@ fn main() {
     if prop == "C07" {
         hang_probes(&mut r);
         funcs(&mut r, t);
+        seed_sweep(&mut r, false, t);
     } else {
         filters(&mut r, t);
+        seed_sweep(&mut r, true, t);
     }
     ctx.finish();
 }
